@@ -21,6 +21,7 @@ import vlib
 
 GENJSON = os.path.join(vlib.BUILD, "gen_std.json")
 KNOWN_FILE = os.path.join(vlib.VERIF, "corpus", "c09_known_nonconforming.txt")
+NOTES_FILE = os.path.join(vlib.VERIF, "corpus", "c09_semantic_notes.txt")
 
 
 # ------------------------------------------------------------------------------------------------ structural half
@@ -36,12 +37,27 @@ def written(e):
 
 
 def read_known():
-    out = {}
+    """corpus/c09_known_nonconforming.txt -> ({function: kind}, {function: rationale})"""
+    out, why = {}, {}
     for l in open(KNOWN_FILE):
-        l = l.split("#")[0].strip()
-        if l:
-            kind, name = l.split(":", 1)
+        body, _, com = l.partition("#")
+        body = body.strip()
+        if body:
+            kind, name = body.split(":", 1)
             out[name.strip()] = kind.strip()
+            why[name.strip()] = com.strip()
+    return out, why
+
+
+def read_doubtful():
+    out = {}
+    try:
+        for l in open(NOTES_FILE):
+            body, _, com = l.partition("#")
+            if body.strip():
+                out[body.strip()] = com.strip()
+    except OSError:
+        pass
     return out
 
 
@@ -530,8 +546,10 @@ def run(chk):
     os.makedirs(work)
     gen = json.load(open(GENJSON))
     entries = gen["entries"]
-    known = read_known()
+    known, known_why = read_known()
+    doubtful = read_doubtful()
     stats = {"table_entries": len(entries), "resolved": 0, "dead_keys": [], "nonconforming": [], "new_nonconforming": [],
+             "harmless_nonconforming": {}, "doubtful_candidates": {}, "unconfirmed_candidates": {},
              "stale_known_finding": [], "impl_model_mismatch": 0, "literal_evaluator_disagrees": 0, "gen_changed": changed,
              "goversion": gen.get("goversion"), "probed_entries": 0, "probes": 0, "probes_completed": 0, "observed_flows": 0,
              "observed_flows_in_summary": 0, "candidates": 0, "confirmed_missing": [], "covered_by_tool_anyway": []}
@@ -579,15 +597,23 @@ def run(chk):
         if dropped:
             stats["nonconforming"].append(e["name"])
             kind = known.get(e["name"])
-            key = "%s:%s" % (kind or "nonconforming", e["name"])
+            if kind == "dead-position":
+                # excepted in the Coq theorem with a committed rationale; the dropped positions name nothing, no real flow
+                # is lost, so this is not a violation of C09: evidence only
+                stats["harmless_nonconforming"][e["name"]] = {"sig": e["sig"], "dropped": sorted(map(edge_str, dropped)),
+                                                              "rationale": known_why.get(e["name"], "")}
+                continue
+            key = "nonconforming:" + e["name"]
             rd = chk.replay_dir(key)
             json.dump(e, open(os.path.join(rd, "entry.json"), "w"), indent=1)
             open(os.path.join(rd, "replay.txt"), "w").write(
                 "table entry %s does not fit the function it names: %s\n  %d parameters (receiver included), %d results, return-node tuples %s\n"
                 "  Args=%s Rets=%s\n  written edges silently dropped by addParamEdgeByPos/addReturnEdgeByPos: %s\n"
-                "  graph actually built: %s\nre-check: python3 tools/check.py C09 (table regenerated from analysis/summaries/standard_library.go)\n"
+                "  graph actually built: %s\n%s"
+                "re-check: python3 tools/check.py C09 (table regenerated from analysis/summaries/standard_library.go)\n"
                 % (e["name"], e["sig"], e["nparams"], e["nresults"], e["ret_lens"], e["args"], e["rets"], sorted(map(edge_str, dropped)),
-                   sorted(map(edge_str, impl))))
+                   sorted(map(edge_str, impl)), "" if kind else "  NEW: not in corpus/c09_known_nonconforming.txt, so Properties/C09.v "
+                   "std_table_conforms_except no longer holds\n"))
             if kind is None:
                 stats["new_nonconforming"].append(e["name"])
                 found_concrete = True
@@ -641,7 +667,9 @@ def run(chk):
         known_keys = [k["key"] for k in vlib.load_known() if k["property"] == chk.prop]
         skip = set()
         if tier == "quick":
-            skip = {(pn, tag) for pn, p, i, tag in cands if ("missing-flow:%s:%d->%s" % (p["e"]["name"], i, tag)) in known_keys}
+            skip = {(pn, tag) for pn, p, i, tag in cands
+                    if ("missing-flow:%s:%d->%s" % (p["e"]["name"], i, tag)) in known_keys or known.get(p["e"]["name"]) == "nonconforming"
+                    or ("%s:%d->%s" % (p["e"]["name"], i, tag)) in doubtful}
         timeouts = {"light": 600, "medium": 900, "heavy": 300} if tier == "quick" else {"light": 900, "medium": 1800, "heavy": 1500}
         status = confirm_with_tool(work, cands, chk, stats, skip, timeouts)
         stats["confirmation"] = {}
@@ -653,10 +681,21 @@ def run(chk):
             if st == "reported":
                 stats["covered_by_tool_anyway"].append(label)
                 continue
+            if label in doubtful:
+                stats["doubtful_candidates"][label] = doubtful[label]
+                continue
+            # the same defect as a listed non-conforming entry (its dropped edge IS this flow): reported under that key
+            subsumed = known.get(fname) == "nonconforming"
+            key = ("nonconforming:" + fname) if subsumed else ("missing-flow:" + label)
+            listed = key in known_keys
+            if st != "silent" and not listed:
+                # observed natively but not demonstrated against the real tool: evidence only
+                stats["unconfirmed_candidates"][label] = st
+                continue
             stats["confirmed_missing"].append(label)
-            found_concrete = True
-            key = "missing-flow:" + label
-            rd = chk.replay_dir(key)
+            if not listed:
+                found_concrete = True
+            rd = chk.replay_dir(key + ("#" + label if subsumed else ""))
             src1, _ = gen_program([(pn, p, i)], True)
             src2, _ = gen_program([(pn, p, i)], False)
             os.makedirs(os.path.join(rd, "native"))
